@@ -1,5 +1,537 @@
-//! placeholder, filled in by the corresponding check
-pub fn main(_rest: &[String]) -> i32 {
-    eprintln!("not implemented");
-    2
+//! `tt`: drives the real `TranspositionTable<SearchTranspositionTableData>` and records what it does
+//! (C19; specification /verif/spec/TransTable.tla, validated by Trace_TransTable.tla).
+//!
+//!   tt info
+//!       one JSON line: entry size, entries per megabyte, whether this build panics on overflow
+//!   tt random --seed S --events E --sizes 1,2,3,16 --out FILE [--mix i,p,n,r,z,f] [--bursts 1,1,2,64]
+//!             [--depths D] [--hash-min A --hash-max B] [--profile NAME]
+//!       random operation sequences on a key pool constructed to collide (slot + j*entries, keys that
+//!       differ only above bit 32, ...).  A size 0 in --sizes makes zero-megabyte tables part of the run.
+//!   tt replay OPS.ndjson OUT
+//!       executes the operations of OPS (first line: the pool) - used for TLC-generated sequences
+//!
+//! After every operation the observable content is logged: `get` on every key of the pool, the
+//! `occupied` counter, `occupancy()` and `generation`.  The harness judges nothing.  A panic inside
+//! the table is data: the event gets "out":"panic" with the message, and the episode ends (the next
+//! event is a fresh table).
+use crate::chess::zobrist::ZobristHash;
+use crate::engine::eval::Eval;
+use crate::engine::search::transposition::{NodeBound, SearchTranspositionTableData};
+use crate::engine::transposition_table::{
+    calculate_number_of_entries, TranspositionTable, TranspositionTableEntry,
+};
+use crate::proj;
+use serde_json::Value;
+use std::io::{BufRead, Write};
+use std::panic::{catch_unwind, AssertUnwindSafe};
+
+type Table = TranspositionTable<SearchTranspositionTableData>;
+
+fn entries(size_mb: usize) -> usize {
+    calculate_number_of_entries::<SearchTranspositionTableData>(size_mb)
+}
+
+fn entry_bytes() -> usize {
+    std::mem::size_of::<TranspositionTableEntry<SearchTranspositionTableData>>()
+}
+
+/// Does this build panic on arithmetic overflow?  (The engine's modules are compiled as part of this
+/// crate, so the answer holds for the code under test.)
+fn overflow_checked() -> bool {
+    catch_unwind(|| {
+        let x: u8 = std::hint::black_box(255u8);
+        std::hint::black_box(x + std::hint::black_box(1u8))
+    })
+    .is_err()
+}
+
+fn panic_msg(e: Box<dyn std::any::Any + Send>) -> String {
+    if let Some(s) = e.downcast_ref::<&str>() {
+        (*s).to_string()
+    } else if let Some(s) = e.downcast_ref::<String>() {
+        s.clone()
+    } else {
+        "panic".to_string()
+    }
+}
+
+struct Rng(u64);
+impl Rng {
+    fn next(&mut self) -> u64 {
+        // splitmix64
+        self.0 = self.0.wrapping_add(0x9E37_79B9_7F4A_7C15);
+        let mut z = self.0;
+        z = (z ^ (z >> 30)).wrapping_mul(0xBF58_476D_1CE4_E5B9);
+        z = (z ^ (z >> 27)).wrapping_mul(0x94D0_49BB_1331_11EB);
+        z ^ (z >> 31)
+    }
+    fn below(&mut self, n: u64) -> u64 {
+        self.next() % n
+    }
+    fn pick<T: Copy>(&mut self, v: &[T]) -> T {
+        v[self.below(v.len() as u64) as usize]
+    }
+}
+
+#[derive(Clone, Debug)]
+enum Op {
+    New(usize),
+    Insert { k: usize, bound: i64, depth: u8, tag: i16, mv: i64 },
+    Probe(usize),
+    NewSearch(u32),
+    Reset,
+    Resize(usize),
+    Fill { from: u64, cnt: u64 },
+}
+
+fn bound_of(b: i64) -> NodeBound {
+    match b {
+        0 => NodeBound::Exact,
+        1 => NodeBound::Upper,
+        _ => NodeBound::Lower,
+    }
+}
+
+fn bound_code(b: &NodeBound) -> i64 {
+    match b {
+        NodeBound::Exact => 0,
+        NodeBound::Upper => 1,
+        NodeBound::Lower => 2,
+    }
+}
+
+fn show(d: Option<&SearchTranspositionTableData>) -> String {
+    match d {
+        None => "[-1,-1,-1,-1,-1]".to_string(),
+        Some(d) => format!(
+            "[{},{},{},{},{}]",
+            bound_code(&d.bound),
+            d.depth,
+            d.age,
+            d.eval.0,
+            d.best_move.map_or(-1, proj::pack_move)
+        ),
+    }
+}
+
+const PANICKED: &str = "[-2,-2,-2,-2,-2]";
+const UNOBSERVED: &str = "[-3,-3,-3,-3,-3]";
+
+struct Runner<W: Write> {
+    tt: Option<Table>,
+    size: usize,
+    pool: Vec<u64>,
+    out: W,
+    events: u64,
+    panics: u64,
+    hw: u64, // next never-filled slot index of the current table
+}
+
+impl<W: Write> Runner<W> {
+    fn header(&mut self, checked: bool, hash_min: i64, hash_max: i64, profile: &str) {
+        let keys: Vec<String> = self.pool.iter().map(|k| proj::limbs(*k).to_string()).collect();
+        writeln!(
+            self.out,
+            "{{\"op\":\"pool\",\"keys\":[{}],\"entry_bytes\":{},\"checked\":{},\"hash_min\":{},\"hash_max\":{},\"profile\":\"{}\"}}",
+            keys.join(","),
+            entry_bytes(),
+            checked,
+            hash_min,
+            hash_max,
+            profile
+        )
+        .unwrap();
+    }
+
+    /// Executes one operation on the real table and logs it.  Returns false when something panicked.
+    fn exec(&mut self, op: &Op) -> bool {
+        let mut res = "[-1,-1,-1,-1,-1]".to_string();
+        let mut done = 0u32;
+        let r: Result<(), String> = match op {
+            Op::New(n) => {
+                self.tt = None; // free the old table first
+                self.hw = 0;
+                self.size = *n;
+                match catch_unwind(|| Table::new(*n)) {
+                    Ok(t) => {
+                        self.tt = Some(t);
+                        Ok(())
+                    }
+                    Err(e) => Err(panic_msg(e)),
+                }
+            }
+            _ if self.tt.is_none() => Err("no table".to_string()),
+            Op::Insert { k, bound, depth, tag, mv } => {
+                let key = ZobristHash(self.pool[*k - 1]);
+                let tt = self.tt.as_mut().unwrap();
+                // as the search does: the entry is stamped with the table's current generation
+                let data = SearchTranspositionTableData {
+                    bound: bound_of(*bound),
+                    eval: Eval(*tag),
+                    depth: *depth,
+                    age: tt.generation,
+                    best_move: if *mv < 0 { None } else { Some(proj::unpack_move(*mv)) },
+                };
+                catch_unwind(AssertUnwindSafe(|| tt.insert(&key, data))).map_err(panic_msg)
+            }
+            Op::Probe(k) => {
+                let key = ZobristHash(self.pool[*k - 1]);
+                let tt = self.tt.as_ref().unwrap();
+                match catch_unwind(AssertUnwindSafe(|| show(tt.get(&key)))) {
+                    Ok(s) => {
+                        res = s;
+                        Ok(())
+                    }
+                    Err(e) => {
+                        res = PANICKED.to_string();
+                        Err(panic_msg(e))
+                    }
+                }
+            }
+            Op::NewSearch(times) => {
+                let tt = self.tt.as_mut().unwrap();
+                let mut r = Ok(());
+                for _ in 0..*times {
+                    match catch_unwind(AssertUnwindSafe(|| tt.new_generation())) {
+                        Ok(()) => done += 1,
+                        Err(e) => {
+                            r = Err(panic_msg(e));
+                            break;
+                        }
+                    }
+                }
+                r
+            }
+            Op::Reset => {
+                self.hw = 0;
+                let tt = self.tt.as_mut().unwrap();
+                catch_unwind(AssertUnwindSafe(|| tt.reset())).map_err(panic_msg)
+            }
+            Op::Resize(n) => {
+                if *n != self.size {
+                    self.hw = 0;
+                }
+                self.size = *n;
+                let tt = self.tt.as_mut().unwrap();
+                catch_unwind(AssertUnwindSafe(|| tt.resize(*n))).map_err(panic_msg)
+            }
+            Op::Fill { from, cnt } => {
+                let tt = self.tt.as_mut().unwrap();
+                let age = tt.generation;
+                let (a, b) = (*from, *from + *cnt);
+                catch_unwind(AssertUnwindSafe(|| {
+                    for s in a..b {
+                        tt.insert(
+                            &ZobristHash(s),
+                            SearchTranspositionTableData {
+                                bound: NodeBound::Lower,
+                                eval: Eval(1),
+                                depth: 1,
+                                age,
+                                best_move: None,
+                            },
+                        );
+                    }
+                }))
+                .map_err(panic_msg)
+            }
+        };
+        // the observable content after the operation
+        let mut obs_panic: Option<String> = None;
+        let (mut occ, mut pm, mut gen) = (0usize, -2i64, 0u8);
+        let mut c: Vec<String> = Vec::with_capacity(self.pool.len());
+        if let Some(tt) = self.tt.as_ref() {
+            occ = tt.occupied;
+            gen = tt.generation;
+            match catch_unwind(AssertUnwindSafe(|| tt.occupancy())) {
+                Ok(p) => pm = p as i64,
+                Err(e) => obs_panic = Some(panic_msg(e)),
+            }
+            // a zero-slot table is not probed for observation (entries "not observed": -3), so that
+            // it is the operations themselves that meet it
+            let observe = entries(self.size) > 0;
+            for k in &self.pool {
+                if !observe {
+                    c.push(UNOBSERVED.to_string());
+                    continue;
+                }
+                let key = ZobristHash(*k);
+                match catch_unwind(AssertUnwindSafe(|| show(tt.get(&key)))) {
+                    Ok(s) => c.push(s),
+                    Err(e) => {
+                        c.push(PANICKED.to_string());
+                        obs_panic = Some(panic_msg(e));
+                    }
+                }
+            }
+        } else {
+            for _ in &self.pool {
+                c.push(PANICKED.to_string());
+            }
+        }
+        let (name, k, bound, depth, tag, mv, n, times, from, cnt) = match op {
+            Op::New(n) => ("new", 0, 0, 0, 0, -1, *n, 0, 0, 0),
+            Op::Insert { k, bound, depth, tag, mv } => {
+                ("insert", *k, *bound, *depth as i64, *tag as i64, *mv, 0, 0, 0, 0)
+            }
+            Op::Probe(k) => ("probe", *k, 0, 0, 0, -1, 0, 0, 0, 0),
+            Op::NewSearch(t) => ("newsearch", 0, 0, 0, 0, -1, 0, *t, 0, 0),
+            Op::Reset => ("reset", 0, 0, 0, 0, -1, 0, 0, 0, 0),
+            Op::Resize(n) => ("resize", 0, 0, 0, 0, -1, *n, 0, 0, 0),
+            Op::Fill { from, cnt } => ("fill", 0, 0, 0, 0, -1, 0, 0, *from, *cnt),
+        };
+        let (outc, msg) = match (&r, &obs_panic) {
+            (Err(m), _) => ("panic", m.clone()),
+            (Ok(()), Some(m)) => ("obs-panic", m.clone()),
+            _ => ("ok", String::new()),
+        };
+        writeln!(
+            self.out,
+            "{{\"op\":\"{}\",\"k\":{},\"bound\":{},\"depth\":{},\"tag\":{},\"mv\":{},\"n\":{},\"times\":{},\"done\":{},\"from\":{},\"cnt\":{},\"res\":{},\"out\":\"{}\",\"msg\":{},\"occ\":{},\"pm\":{},\"gen\":{},\"c\":[{}]}}",
+            name, k, bound, depth, tag, mv, n, times, done, from, cnt, res, outc,
+            Value::String(msg).to_string(), occ, pm, gen, c.join(",")
+        )
+        .unwrap();
+        self.events += 1;
+        let ok = outc == "ok";
+        if !ok {
+            self.panics += 1;
+            self.tt = None; // the episode is over
+        }
+        ok
+    }
+}
+
+fn gcd(a: u128, b: u128) -> u128 {
+    if b == 0 { a } else { gcd(b, a % b) }
+}
+
+/// Keys constructed to collide: for a few base slots b, the keys b + j*L (L = lcm of the entry
+/// counts of all sizes in play: same slot at every size), b + j*e (e = smallest entry count: same slot
+/// at the smallest size only), and twins of these that differ only above bit 32 / bit 48.
+fn make_pool(rng: &mut Rng, sizes: &[usize]) -> Vec<u64> {
+    let es: Vec<u128> = sizes.iter().filter(|s| **s > 0).map(|s| entries(*s) as u128).filter(|e| *e > 0).collect();
+    let emin = es.iter().copied().min().unwrap_or(65536);
+    let mut l: u128 = 1;
+    for e in &es {
+        l = l / gcd(l, *e) * *e;
+    }
+    let l = l.max(1);
+    let mut bases: Vec<u128> = vec![rng.below(emin as u64) as u128, emin - 1, 0];
+    bases.dedup();
+    let mut pool: Vec<u64> = Vec::new();
+    let mut push = |pool: &mut Vec<u64>, k: u128| {
+        if k <= u64::MAX as u128 && !pool.contains(&(k as u64)) {
+            pool.push(k as u64);
+        }
+    };
+    for (i, b) in bases.iter().enumerate() {
+        push(&mut pool, *b);
+        push(&mut pool, *b + l);
+        if i < 2 {
+            push(&mut pool, *b + emin * (1 + rng.below(3) as u128));
+        }
+        // same low 32 bits as b (l * 2^k with enough zeros below bit 32), still the same slot
+        let mut hi = l;
+        while hi % (1u128 << 32) != 0 {
+            hi *= 2;
+        }
+        push(&mut pool, *b + hi * (1 + i as u128));
+        if i == 0 {
+            // same low 48 bits
+            let mut hh = hi;
+            while hh % (1u128 << 48) != 0 {
+                hh *= 2;
+            }
+            push(&mut pool, *b + hh);
+        }
+    }
+    push(&mut pool, u64::MAX as u128);
+    pool
+}
+
+fn arg<'a>(rest: &'a [String], name: &str) -> Option<&'a str> {
+    rest.iter().position(|a| a == name).and_then(|i| rest.get(i + 1)).map(|s| s.as_str())
+}
+
+fn nums<T: std::str::FromStr>(s: &str) -> Vec<T> {
+    s.split(',').filter(|x| !x.is_empty()).filter_map(|x| x.parse::<T>().ok()).collect()
+}
+
+fn random(rest: &[String]) -> i32 {
+    let seed: u64 = arg(rest, "--seed").and_then(|s| s.parse().ok()).unwrap_or(1);
+    let budget: u64 = arg(rest, "--events").and_then(|s| s.parse().ok()).unwrap_or(1000);
+    let sizes: Vec<usize> = nums(arg(rest, "--sizes").unwrap_or("1,2,3,16"));
+    let mix: Vec<u64> = nums(arg(rest, "--mix").unwrap_or("55,10,20,2,4,9"));
+    let bursts: Vec<u32> = nums(arg(rest, "--bursts").unwrap_or("1,1,1,1,2,3,64,192,255,256"));
+    let maxdepth: u64 = arg(rest, "--depths").and_then(|s| s.parse().ok()).unwrap_or(4);
+    let hash_min: i64 = arg(rest, "--hash-min").and_then(|s| s.parse().ok()).unwrap_or(-1);
+    let hash_max: i64 = arg(rest, "--hash-max").and_then(|s| s.parse().ok()).unwrap_or(-1);
+    let profile = arg(rest, "--profile").unwrap_or("?");
+    let Some(outp) = arg(rest, "--out") else {
+        eprintln!("tt random: --out missing");
+        return 2;
+    };
+    if sizes.is_empty() || mix.len() != 6 || bursts.is_empty() {
+        eprintln!("tt random: bad --sizes/--mix/--bursts");
+        return 2;
+    }
+    let mut rng = Rng(seed.wrapping_mul(0x2545_F491_4F6C_DD1D) ^ 0xC19);
+    let pool = make_pool(&mut rng, &sizes);
+    let np = pool.len();
+    let out = std::io::BufWriter::with_capacity(1 << 20, std::fs::File::create(outp).unwrap());
+    let mut r = Runner { tt: None, size: 0, pool, out, events: 0, panics: 0, hw: 0 };
+    r.header(overflow_checked(), hash_min, hash_max, profile);
+    let total: u64 = mix.iter().sum();
+    let mut tag: i16 = 0;
+    let mut counts = [0u64; 7];
+    while r.events < budget {
+        if r.tt.is_none() {
+            counts[6] += 1;
+            r.exec(&Op::New(rng.pick(&sizes)));
+            continue;
+        }
+        let mut x = rng.below(total);
+        let mut which = 0;
+        for (i, w) in mix.iter().enumerate() {
+            if x < *w {
+                which = i;
+                break;
+            }
+            x -= *w;
+        }
+        let op = match which {
+            0 => {
+                tag = if tag >= 30000 { 1 } else { tag + 1 };
+                let from = rng.below(64) as i64;
+                let to = (from + 1 + rng.below(63) as i64) % 64;
+                let mv = if rng.below(3) == 0 { -1 } else { from + 64 * to + 32768 * (rng.below(2) as i64) };
+                Op::Insert {
+                    k: 1 + rng.below(np as u64) as usize,
+                    bound: rng.below(3) as i64,
+                    depth: rng.below(maxdepth + 1) as u8,
+                    tag,
+                    mv,
+                }
+            }
+            1 => Op::Probe(1 + rng.below(np as u64) as usize),
+            2 => Op::NewSearch(rng.pick(&bursts)),
+            3 => Op::Reset,
+            4 => Op::Resize(rng.pick(&sizes)),
+            _ => {
+                // a range of never-filled slots that contains no slot of a pool key
+                let n = entries(r.size) as u64;
+                if n == 0 {
+                    continue;
+                }
+                let pslots: Vec<u64> = r.pool.iter().map(|k| k % n).collect();
+                while r.hw < n && pslots.contains(&r.hw) {
+                    r.hw += 1;
+                }
+                let want = rng.pick(&[1u64, 7, 100, 1000, 5000, 20000]);
+                let mut end = (r.hw + want).min(n);
+                for p in &pslots {
+                    if *p >= r.hw && *p < end {
+                        end = *p;
+                    }
+                }
+                if end <= r.hw {
+                    continue;
+                }
+                let op = Op::Fill { from: r.hw, cnt: end - r.hw };
+                r.hw = end;
+                op
+            }
+        };
+        counts[which] += 1;
+        r.exec(&op);
+    }
+    r.out.flush().unwrap();
+    println!(
+        "{{\"events\":{},\"panics\":{},\"pool\":{},\"inserts\":{},\"probes\":{},\"newsearches\":{},\"resets\":{},\"resizes\":{},\"fills\":{},\"tables\":{}}}",
+        r.events, r.panics, np, counts[0], counts[1], counts[2], counts[3], counts[4], counts[5], counts[6]
+    );
+    0
+}
+
+fn key_of_limbs(v: &Value) -> u64 {
+    let a = v.as_array().unwrap();
+    (0..4).map(|i| a[i].as_u64().unwrap() << (16 * i)).sum()
+}
+
+fn replay(rest: &[String]) -> i32 {
+    if rest.len() < 2 {
+        eprintln!("usage: tt replay OPS OUT");
+        return 2;
+    }
+    let f = std::io::BufReader::new(std::fs::File::open(&rest[0]).unwrap());
+    let out = std::io::BufWriter::with_capacity(1 << 20, std::fs::File::create(&rest[1]).unwrap());
+    let mut r = Runner { tt: None, size: 0, pool: Vec::new(), out, events: 0, panics: 0, hw: 0 };
+    let mut skipped = 0u64;
+    for line in f.lines() {
+        let line = line.unwrap();
+        if line.trim().is_empty() {
+            continue;
+        }
+        let v: Value = serde_json::from_str(&line).unwrap();
+        let g = |n: &str| v.get(n).and_then(|x| x.as_i64()).unwrap_or(0);
+        let op = match v["op"].as_str().unwrap() {
+            "pool" => {
+                r.pool = v["keys"].as_array().unwrap().iter().map(key_of_limbs).collect();
+                r.header(
+                    overflow_checked(),
+                    v.get("hash_min").and_then(|x| x.as_i64()).unwrap_or(-1),
+                    v.get("hash_max").and_then(|x| x.as_i64()).unwrap_or(-1),
+                    v.get("profile").and_then(|x| x.as_str()).unwrap_or("?"),
+                );
+                continue;
+            }
+            "new" => Op::New(g("n") as usize),
+            "insert" => Op::Insert {
+                k: g("k") as usize,
+                bound: g("bound"),
+                depth: g("depth") as u8,
+                tag: g("tag") as i16,
+                mv: v.get("mv").and_then(|x| x.as_i64()).unwrap_or(-1),
+            },
+            "probe" => Op::Probe(g("k") as usize),
+            "newsearch" => Op::NewSearch(v.get("times").and_then(|x| x.as_u64()).unwrap_or(1) as u32),
+            "reset" => Op::Reset,
+            "resize" => Op::Resize(g("n") as usize),
+            "fill" => Op::Fill { from: g("from") as u64, cnt: g("cnt") as u64 },
+            other => {
+                eprintln!("tt replay: unknown op {other}");
+                return 2;
+            }
+        };
+        // after a panic the episode is over: operations up to the next `new` are not executed
+        if r.tt.is_none() && !matches!(op, Op::New(_)) {
+            skipped += 1;
+            continue;
+        }
+        r.exec(&op);
+    }
+    r.out.flush().unwrap();
+    println!("{{\"events\":{},\"panics\":{},\"skipped\":{}}}", r.events, r.panics, skipped);
+    0
+}
+
+pub fn main(rest: &[String]) -> i32 {
+    match rest.first().map(|s| s.as_str()) {
+        Some("info") => {
+            println!(
+                "{{\"entry_bytes\":{},\"entries_per_mb\":{},\"checked\":{}}}",
+                entry_bytes(),
+                entries(1),
+                overflow_checked()
+            );
+            0
+        }
+        Some("random") => random(&rest[1..]),
+        Some("replay") => replay(&rest[1..]),
+        _ => {
+            eprintln!("usage: tt info | tt random --seed S --events E --sizes a,b,.. --out FILE | tt replay OPS OUT");
+            2
+        }
+    }
 }
